@@ -378,6 +378,17 @@ func (w *World) verifyFunc(u *Unit, name string) (ex *Exec, err error) {
 			if g.Init != "" {
 				v = ex.evalSpec(st, g.Init, u, "ghost "+g.Name)
 				v = ex.coerce(st, ex.materialize(v, gt), gt)
+				if v.Term != nil && v.Term.S == SBool && hasQuantifier(v.Term) {
+					// a quantified hypothesis is given a name: the ghost is a
+					// Boolean constant that implies the formula.  Sound for uses
+					// of the ghost as an antecedent (imp(H, ...)): a model in
+					// which the formula holds may always choose H true; a
+					// positive use of H is simply not provable.
+					nm := ex.freshVal(st, "ghost."+g.Name, gt)
+					st.assume(implies(nm.Term, v.Term))
+					ex.ghostConst[g.Name] = true
+					v = nm
+				}
 			} else {
 				v = ex.freshVal(st, "ghost."+g.Name, gt)
 				ex.ghostConst[g.Name] = true
@@ -1108,6 +1119,12 @@ func relevantHyps(hyps []*Term, goal *Term) ([]*Term, int) {
 // parameters replaced by the arguments.  The lemma itself is proved (for all
 // parameter values) as its own obligation, so the instance may be assumed.
 func (ex *Exec) lemmaInstance(st *State, src string, where string) *Term {
+	// "oldmem lemma(args)": the instance is about the memory of function entry
+	useOld := false
+	if t := strings.TrimSpace(src); strings.HasPrefix(t, "oldmem ") {
+		useOld = true
+		src = strings.TrimSpace(strings.TrimPrefix(t, "oldmem "))
+	}
 	e, err := parseSpecExpr(src)
 	if err != nil {
 		ex.specFail("%s: cannot parse %q", where, src)
@@ -1140,7 +1157,29 @@ func (ex *Exec) lemmaInstance(st *State, src string, where string) *Term {
 	}
 	saveNL := ex.specNoLocals
 	ex.specNoLocals = true
-	g := ex.evalSpecBool(st, l.Body, u, where+" "+name)
+	var g *Term
+	if useOld && st.old != nil {
+		ev := st.clone()
+		ev.heaps = map[string]*Term{}
+		for k, t := range st.old.heaps {
+			ev.heaps[k] = t
+		}
+		npc := len(ev.pc)
+		g = ex.evalSpecBool(ev, l.Body, u, where+" "+name)
+		for _, p := range ev.pc[npc:] {
+			st.assume(p)
+		}
+		for k, t := range ev.heaps {
+			if _, ok := st.heaps[k]; !ok {
+				st.heaps[k] = t
+			}
+			if _, ok := st.old.heaps[k]; !ok {
+				st.old.heaps[k] = t
+			}
+		}
+	} else {
+		g = ex.evalSpecBool(st, l.Body, u, where+" "+name)
+	}
 	ex.specNoLocals = saveNL
 	for n, v := range saved {
 		if v == nil {
